@@ -77,6 +77,7 @@ var codecKeyPools = map[string][]string{
 	"ind-inner": {"a: b", "a #b", "a b", "a:b"},
 	"unicode":   {"é", "😀", "日本"},
 	"ws":        {" ", " a", "a ", "a\nb", "\t"},
+	"prefix":    {"job"},
 }
 
 type codecTables struct {
@@ -164,6 +165,10 @@ func (t *codecTables) buildDoc(slots []tlaval.Value, pick func(n int) int) dval 
 			}
 		case "list-of-list":
 			v = dval{Kind: "list", Items: []dval{{Kind: "list", Items: []dval{a}}, {Kind: "list"}, b}}
+		case "list-of-obj":
+			v = dval{Kind: "list", Items: []dval{{Kind: "obj", Keys: []string{"n", "m"}, Items: []dval{a, b}}, {Kind: "obj", Keys: []string{"n"}, Items: []dval{b}}}}
+		case "obj-of-obj":
+			v = dval{Kind: "obj", Keys: []string{"t", "u"}, Items: []dval{{Kind: "obj", Keys: []string{"n"}, Items: []dval{a}}, b}}
 		case "obj-of-list":
 			v = dval{Kind: "obj", Keys: []string{"l", "e"}, Items: []dval{{Kind: "list", Items: []dval{a, b}}, {Kind: "obj"}}}
 		}
